@@ -496,6 +496,9 @@ pub mod receiver;
 pub mod sender;
 pub use crate::tools::error;
 
+#[cfg(feature = "verif-hooks")]
+pub mod verif;
+
 /// Core module with low-level function
 pub mod core {
 
